@@ -478,7 +478,11 @@ func randFlow(r *rng, p flowParams) FlowScenario {
 				sc.Steps = append(sc.Steps, Step{Connect: &cs})
 			}
 		}
-		sc.Steps = append(sc.Steps, Step{Run: ip(root)})
+		st := Step{Run: ip(root)}
+		if r.chance(25) {
+			st.Via = "flow"
+		}
+		sc.Steps = append(sc.Steps, st)
 	}
 	return sc
 }
